@@ -260,6 +260,14 @@ func runC07(r *core.Run) {
 	if capped {
 		r.Capped.Store(true)
 	}
+	// result-independence histories (H1/H2) of the identity accessors: hashes, addresses and serialisations of a
+	// freshly parsed identity do not depend on what earlier callers did with the values and results they were handed
+	independencePass(r, "C07", func(family, call string) bool {
+		if !containsAny(family, "KeysAndCert", "Destination", "RouterIdentity", "RouterInfo", "KeyCertificate", "Certificate") {
+			return false
+		}
+		return call == "" || containsAny(call, "Hash", "Base32", "Base64", "Bytes", "Equal")
+	})
 	c07Constructed(r)
 	hd := 3
 	if !r.Quick() {
